@@ -54,6 +54,7 @@ package proxy
 //@ extern net/http.(*Request).WithContext
 //@   ensures[copy] result != nil && fresh(result) && result.Header == r.Header && result.Host == r.Host && result.URL == r.URL && result.Method == r.Method && result.Body == r.Body
 //@ extern net/http.(*Request).Context
+//@   ensures[nonnil] result != nil
 //@ extern context.WithTimeout
 //@   modifies-all $gTimeoutSet
 //@   ghost-set gTimeoutSet = true
@@ -211,3 +212,72 @@ package proxy
 //@   modifies-all $gShutStep $tProxyDown
 //@   ghost-set gShutStep = old(gShutStep) + 1
 //@   ghost-set tProxyDown = old(gShutStep) + 1
+
+// ---- what piko itself does to a proxied request (C08) -------------------------------
+// The reverse proxy is built with a Director that sets the URL scheme and host
+// and touches nothing else of the request (method, path, query, Host, headers
+// and body are left to httputil.ReverseProxy), with no Rewrite and no
+// ModifyResponse hook, dialling through dialUpstream and reporting failures
+// through errorHandler.
+
+//@ contract NewHTTPProxy$1
+//@   serves C08
+//@   opt context-values-typed true
+//@   requires[request] req != nil && req.URL != nil
+//@   modifies req.URL.Scheme, req.URL.Host
+//@   ensures[scheme] req.URL.Scheme == "http"
+//@   ensures[rest-untouched] req.URL == old(req.URL) && req.URL.Path == old(req.URL.Path) && req.URL.RawQuery == old(req.URL.RawQuery) && req.Method == old(req.Method) && req.Host == old(req.Host) && req.Header == old(req.Header) && req.Body == old(req.Body)
+
+//@ contract NewHTTPProxy
+//@   serves C08
+//@   requires[env-logger] logger != nil
+//@   ensures[fields] result != nil && fresh(result) && result.upstreams == upstreams && result.timeout == timeout && result.proxy != nil && fresh(result.proxy)
+//@   ensures[director-only] fnIs(result.proxy.Director, "github.com/andydunstall/piko/server/proxy.NewHTTPProxy$1") && result.proxy.Rewrite == nil && result.proxy.ModifyResponse == nil
+//@   ensures[error-handler] fnIs(result.proxy.ErrorHandler, "(*github.com/andydunstall/piko/server/proxy.HTTPProxy).errorHandler") && recvOf(result.proxy.ErrorHandler, "*HTTPProxy") == result
+
+// ---- the byte pipes around a tunnelled TCP connection (C07) -----------------------------
+// Each tunnelled connection is served by two goroutines, one per direction:
+// each copies from one end to the other with io.Copy and, when the copy ends,
+// closes the end it was writing to, so that the close is seen by the other
+// side. Ghost records of what one goroutine body does:
+//   gCopied/gCopyDst/gCopySrc    the io.Copy call
+//   gPipeClosed                  the connection closed by the goroutine
+//   gPipeClosedAfterCopy         ... and it was closed after the copy
+
+//@ ghost gCopied bool
+//@ ghost gCopyDst io.Writer
+//@ ghost gCopySrc io.Reader
+//@ ghost gCopyCount int
+//@ ghost gPipeClosed net.Conn
+//@ ghost gPipeClosedAfterCopy bool
+
+//@ extern io.Copy
+//@   modifies-all $gCopied $gCopyDst $gCopySrc $gCopyCount
+//@   ghost-set gCopied = true
+//@   ghost-set gCopyDst = dst
+//@   ghost-set gCopySrc = src
+//@   ghost-set gCopyCount = old(gCopyCount) + 1
+//@ extern-iface net.(Conn).Close
+//@   modifies-all $gPipeClosed $gPipeClosedAfterCopy
+//@   ghost-set gPipeClosed = self
+//@   ghost-set gPipeClosedAfterCopy = gCopied
+//@ extern sync.(*WaitGroup).Done
+//@ extern sync.(*WaitGroup).Add
+
+//@ contract (*TCPProxy).forward$1
+//@   serves C07
+//@   requires[conns] p != nil && upstream != nil && downstream != nil
+//@   requires[fresh-step] !gCopied && gCopyCount == 0
+//@   ensures[one-direction] gCopyCount == 1 && gCopyDst == asIface(upstream, "io.Writer") && gCopySrc == asIface(downstream, "io.Reader")
+//@   ensures[close-propagates] gPipeClosed == upstream && gPipeClosedAfterCopy
+//@ contract (*TCPProxy).forward$2
+//@   serves C07
+//@   requires[conns] p != nil && downstream != nil && upstream != nil
+//@   requires[fresh-step] !gCopied && gCopyCount == 0
+//@   ensures[one-direction] gCopyCount == 1 && gCopyDst == asIface(downstream, "io.Writer") && gCopySrc == asIface(upstream, "io.Reader")
+//@   ensures[close-propagates] gPipeClosed == downstream && gPipeClosedAfterCopy
+//@ contract (*TCPProxy).forward
+//@   serves C07
+//@   requires[conns] upstream != nil && downstream != nil
+//@   requires[fresh-step] !spawned("(*TCPProxy).forward$1") && !spawned("(*TCPProxy).forward$2")
+//@   ensures[both-directions] spawned("(*TCPProxy).forward$1") && spawned("(*TCPProxy).forward$2")
